@@ -164,31 +164,19 @@ func (e *Engine) setupTypes() error {
 		}
 		return o.Type(), nil
 	}
-	var err error
-	es, err := look("errors", "errorString")
-	if err != nil {
-		return err
+	opt := func(pkg, name string) types.Type {
+		t, err := look(pkg, name)
+		if err != nil {
+			return types.NewNamed(types.NewTypeName(0, nil, "missing_"+name, nil), types.NewStruct(nil, nil), nil)
+		}
+		return t
 	}
-	e.errorStringPtrT = types.NewPointer(es)
-	we, err := look("fmt", "wrapError")
-	if err != nil {
-		return err
-	}
-	e.wrapErrorPtrT = types.NewPointer(we)
-	vc, err := look("context", "valueCtx")
-	if err != nil {
-		return err
-	}
-	e.valueCtxPtrT = types.NewPointer(vc)
-	if e.timeT, err = look("time", "Time"); err != nil {
-		return err
-	}
-	if e.tickerT, err = look("time", "Ticker"); err != nil {
-		return err
-	}
-	if e.timerT, err = look("time", "Timer"); err != nil {
-		return err
-	}
+	e.errorStringPtrT = types.NewPointer(opt("errors", "errorString"))
+	e.wrapErrorPtrT = types.NewPointer(opt("fmt", "wrapError"))
+	e.valueCtxPtrT = types.NewPointer(opt("context", "valueCtx"))
+	e.timeT = opt("time", "Time")
+	e.tickerT = opt("time", "Ticker")
+	e.timerT = opt("time", "Timer")
 	e.errorIface = types.Universe.Lookup("error").Type().Underlying().(*types.Interface)
 	e.runtimeErrT = types.NewNamed(types.NewTypeName(0, nil, "runtimeError", nil), types.Typ[types.String], nil)
 	e.opaqueT = types.NewNamed(types.NewTypeName(0, nil, "verifOpaque", nil), types.NewStruct(nil, nil), nil)
